@@ -172,6 +172,16 @@ class View:
         self._index(key)._assign(value, "setitem")
 
     def _assign(self, value, tag):
+        if isinstance(value, View) and value.buf is self.buf and _same_spec(value.spec, self.spec):
+            return  # `a[k] += x` ends with a[k] = a[k]: nothing to do
+        if isinstance(value, np.ndarray) and value.ndim and value.dtype == object:
+            sh = self.concrete_shape()
+            vals = np.broadcast_to(value, sh)
+            for idx in np.ndindex(*sh):
+                bidx = self.buf_index(idx)
+                v = S(vals[idx])
+                self.buf.write([(b, b + 1) for b in bidx], lambda _i, v=v: v, tag)
+            return
         if isinstance(value, View):
             src = value
             if src.ndim > self.ndim:
@@ -264,12 +274,38 @@ class View:
     def fill(self, value):
         self._assign(value, "fill")
 
+    def concrete_shape(self):
+        sh = self.shape
+        if not all(isinstance(n, int) for n in sh):
+            raise Unsupported(f"a concrete shape is required here, got {sh}")
+        return sh
+
+    def to_object_array(self, upto=None):
+        """object ndarray of the current cell values (concrete shape only)."""
+        sh = self.concrete_shape()
+        out = np.empty(sh, dtype=object)
+        for idx in np.ndindex(*sh):
+            out[idx] = self.at(idx, upto)
+        return out
+
     def _inplace(self, other, op, tag):
         upto = len(self.buf.log)
         buf = self.buf
-        if isinstance(other, View):
-            tmp = _Lazy(self, lambda c: op(self.at(c, upto), other.at(c)))
-            raise Unsupported("in-place op with a field operand (not used by SophT)")
+        if isinstance(other, np.ndarray) and other.ndim:
+            # small concrete window updated cell by cell (numpy broadcasting of the operand)
+            sh = self.concrete_shape()
+            vals = np.broadcast_to(other, sh)
+            for idx in np.ndindex(*sh):
+                bidx = self.buf_index(idx)
+                v = S(vals[idx])
+
+                def rhs(i, upto=upto, v=v):
+                    return op(buf.read(i, upto), v)
+
+                buf.write([(b, b + 1) for b in bidx], rhs, tag)
+            return self
+        if isinstance(other, View) or (hasattr(other, "fn") and hasattr(other, "shape")):
+            raise Unsupported("in-place op with a symbolic field operand (not used by SophT)")
         val = S(other)
 
         def rhs(idx, upto=upto, val=val):
@@ -352,17 +388,21 @@ class View:
     def __array__(self, *a, **k):
         raise Unsupported("conversion of a symbolic field to a concrete ndarray")
 
-    def __array_ufunc__(self, ufunc, method, *inputs, **kwargs):
-        raise Unsupported(f"numpy ufunc {ufunc.__name__} on a symbolic field")
+    __array_ufunc__ = None  # numpy binary operators defer to View.__r*__
 
     def __array_function__(self, func, types, args, kwargs):
         raise Unsupported(f"numpy function {func.__name__} on a symbolic field")
 
 
-class _Lazy:
-    def __init__(self, like, fn):
-        self.like = like
-        self.fn = fn
+def _same_spec(a, b):
+    if len(a) != len(b):
+        return False
+    for x, y in zip(a, b):
+        if x[0] != y[0] or x[1] != y[1] or not x[2].same(y[2]):
+            return False
+        if x[0] == "ax" and not S(x[3]).same(S(y[3])):
+            return False
+    return True
 
 
 def _maybe_int(s: Sym):
